@@ -194,6 +194,10 @@ def configurations(tier, rng):
                                                 "  lifetime: 1.e-12 s\n  luminosity: 1.e46 s^-1\n  energy: 1.e-9 J\n")))
     cfgs.append(("mask", dict(base, total_time=0.77, ncell=(8, 8, 8), nsub=(2, 2, 2), periodic=(False, False, False), side=(1., 1., 1.),
                               extra="  use mask: true\n" + MASK)))
+    # external gravity: the accelerations are cell state (computed from the potential, dumped with the hydro variables)
+    cfgs.append(("gravity", dict(base, total_time=0.9, ncell=(8, 8, 8), nsub=(2, 2, 2), periodic=(False, True, False), side=(1., 1., 1.),
+                                 extra="  external gravity: true\n\nExternalPotential:\n  type: PointMass\n"
+                                       "  position: [0.45 m, 0.5 m, 0.55 m]\n  mass: 1.e13 kg\n")))
     if tier != "quick":
         cfgs.append(("single", dict(base, ncell=(10, 10, 10), nsub=(1, 1, 1), periodic=(True, False, True),
                                     side=(0.3, 0.3, 0.3))))
